@@ -6,6 +6,7 @@ pub mod c03;
 pub mod c05;
 pub mod c07;
 pub mod c08;
+pub mod c10;
 pub mod c13;
 pub mod c14;
 pub mod c17;
@@ -25,6 +26,7 @@ pub fn all() -> Vec<Property> {
         Property { id: "C05", run: c05::run, replay: c05::replay },
         Property { id: "C07", run: c07::run, replay: c07::replay },
         Property { id: "C08", run: c08::run, replay: c08::replay },
+        Property { id: "C10", run: c10::run, replay: c10::replay },
         Property { id: "C13", run: c13::run, replay: c13::replay },
         Property { id: "C14", run: c14::run, replay: c14::replay },
         Property { id: "C17", run: c17::run, replay: c17::replay },
